@@ -133,11 +133,21 @@ def build_harness(variant="san"):
                 os.remove(old)
             except OSError:
                 pass
-        objs = [os.path.join(libd, n + ".o") for n in LIB_SRCS]
+        # vorbisenc.c is compiled inside the harness (harness/enc_unit.c includes it) with the library flags
+        objs = [os.path.join(libd, n + ".o") for n in LIB_SRCS if n != "vorbisenc"]
+        encu = exe + ".enc_unit.o"
+        p = sh(["gcc", "-c", "-D" + GUARD, "-I" + os.path.join(REPO, "include"), "-I" + os.path.join(REPO, "lib"), "-w"] +
+               VARIANTS[variant] + [os.path.join(VERIF, "harness", "enc_unit.c"), "-o", encu])
+        if p.returncode != 0:
+            raise BuildError("lib/vorbisenc.c does not compile inside the harness unit:\n" + p.stderr[-3000:])
         cmd = ["gcc", "-D" + GUARD, "-DVARIANT_" + variant.upper(), "-I" + os.path.join(REPO, "include"),
                "-I" + os.path.join(REPO, "lib"), "-I" + os.path.join(VERIF, "harness"), "-w"] + flags + \
-              [os.path.join(VERIF, "harness", "vharn.c")] + objs + ["-o", exe + ".tmp", "-logg", "-lm", "-lpthread"]
+              [os.path.join(VERIF, "harness", "vharn.c"), encu] + objs + ["-o", exe + ".tmp", "-logg", "-lm", "-lpthread"]
         p = sh(cmd)
+        try:
+            os.remove(encu)
+        except OSError:
+            pass
         if p.returncode != 0:
             raise BuildError("harness does not build against the current tree:\n" + p.stderr[-4000:])
         os.rename(exe + ".tmp", exe)
